@@ -151,7 +151,8 @@ func (relayBids) BuilderBid(_ context.Context, slot phase0.Slot, _ phase0.Hash32
 	for _, r := range proposerConfig.Relays {
 		sum += r.GasLimit + uint64(len(r.Address)) + uint64(r.FeeRecipient[0]) + uint64(r.Grace)
 	}
-	switch (uint64(slot) + sum*0) % 3 {
+	_ = sum
+	switch uint64(slot) % 3 {
 	case 0:
 		return &blockauctioneer.Results{
 			Participation: map[string]*blockauctioneer.Participation{},
@@ -335,7 +336,7 @@ func (w *relayWorld) run(rep int, _ int, _ *Role, op *Op) {
 	}
 }
 
-func (w *relayWorld) finish(int) string       { return "" }
+func (w *relayWorld) finish(int) string      { return "" }
 func (w *relayWorld) judge(ev.TB, *Scenario) {}
 func (w *relayWorld) close()                 { w.cancel() }
 
